@@ -31,7 +31,7 @@ CHECKS = {
              "The executable Lean model of Encoder/SignalEncoder/Reader (Model/Store.lean) and the abstract Spec.run are compared with the real store "
              "on generated histories covering every regime of the quantifier (widths, state orders, payload sizes around 32 bytes, 65535-multiples, splits).",
         design_ref="DESIGN.md section 5 / C04",
-        note="Proved end to end (C04_store_refines_spec, C04_store_refines_spec_all): for every signal type (vectors, one-bit signals, reals, strings) and both write paths (VCD tokens and pre-encoded GHW-style add_n_bit_change values), every history, every block size and every compression decision, the finished store has the time table of Spec.run and load_signal returns exactly Spec.run's change list "
+        note="C04_division_irrelevant: two divisions of the same operations among parser threads (split marks anywhere or nowhere) denote the same time table and change lists (Proofs/SplitFree.lean). Proved end to end (C04_store_refines_spec, C04_store_refines_spec_all): for every signal type (vectors, one-bit signals, reals, strings) and both write paths (VCD tokens and pre-encoded GHW-style add_n_bit_change values), every history, every block size and every compression decision, the finished store has the time table of Spec.run and load_signal returns exactly Spec.run's change list "
              "(simulation of the encoder incl. block roll-over against the specification, multi-block load, loader de-duplication = canon). Encoder::append is part of the theorem (Spec.runSegs: one encoder per segment between the split operations, appended in order; the driver's store model IS runSegs). "
              "lz4_flex is not modelled (compress = id in the model; the compression decision is an arbitrary predicate); the theorem assumes no block larger than 2^36 bytes (32-bit compressed-length field). Trusted: Lean kernel, table translator vf/tables.py, harness, generators.",
     ),
@@ -124,7 +124,7 @@ CHECKS = {
     "C11": dict(
         technique="Lean 4 proof (per-bit vector assembly, std_ulogic table, two's complement, enum widths, element labels) + three-way differential: generated GHW files through the real loader, a BYTE-LEVEL Lean model of wellen/src/ghw and the denotation of the abstract design",
         text="Lean theorems C11_set_get (for every vector buffer, bit position and symbol: writing one bit record changes exactly that symbol of the assembled value, in the addressing the renderer and slice_signal use; "
-             "byte lemmas by kernel evaluation over all bytes x positions x symbols), C11_lut (STD_LOGIC_LUT = position in the rendering alphabet of GHDL's literal order), C11_int32 (the 8 bytes handed to the encoder end in the "
+             "byte lemmas by kernel evaluation over all bytes x positions x symbols), C11_lut (STD_LOGIC_LUT = position in the rendering alphabet of GHDL's literal order), C11_endianness / C11_i64_endianness (for every k and n < 256^k the big-endian bytes read with the big-endian flag and the reversed bytes read without it both give n: times in fs, integers and lengths mean the same in files of either byte order), C11_int32 (the 8 bytes handed to the encoder end in the "
              "32-bit two's complement), C11_enum_bits (minimal width), C11_labels / C11_labels_model_eq_spec (elements are labelled left + k / left - k in declaration order), C11_delta_cycle / C11_new_time (a step at the current time keeps the time table: its entries carry the same index; a later time appends one entry). The composition file -> waveform is differential: "
              "gen/ghw_writer.py serialises random designs (see evidence rule) and the real loader, the byte-level Lean model (header, directory probe, string / type / WKT / hierarchy sections, type classification, add_var, signal "
              "tracker incl. aliases, VecBuffer, snapshot / cycle sections, store, slices, pointer-level builder) and the design's denotation (atoms -> values, no tables, no packing) must agree on the full dump. "
@@ -156,7 +156,7 @@ CHECKS = {
     ),
     "C10": dict(
         technique="Lean 4 proof (refinement: SignalWriter = canon of the callback sequence, by induction over all callback sequences; expand_entries = rewrite under the wider kind, writer entry = loader entry layout; case analysis over all kind triples and width residues) + exhaustive state-order differential + whole FST files written from abstract designs + corpus VCD/FST pairs",
-        text="Lean theorem C10_writer_refines_canon (Proofs/FstRefine.lean): for EVERY sequence of callbacks (time index, value characters) of a bit-vector signal of width >= 2 - every order of 2-, 4- and 9-state values, any repetitions - the model of SignalWriter::add_change (widening through expand_entries, entry layout, byte-wise de-duplication) ends with exactly the changes the specification's canon keeps, each stored as the loader's entry of its symbols under the widest kind that occurred; C10_writer_strings_reals (string and real signals: the writer keeps exactly canon of the callback sequence, stored verbatim), C10_expand_for_every_value (expand_entries is the identity on meaning for every value), C10_cursor_first (the time-index cursor of load_signals). Further: C10_expand_is_rewrite (an entry written under a narrower maximum, once widened, is byte for byte the entry written under the wider kind: order independence of 2/4/9-state values), "
+        text="Lean theorem C10_writer_refines_canon (Proofs/FstRefine.lean): for EVERY sequence of callbacks (time index, value characters) of a bit-vector signal of width >= 2 - every order of 2-, 4- and 9-state values, any repetitions - the model of SignalWriter::add_change (widening through expand_entries, entry layout, byte-wise de-duplication) ends with exactly the changes the specification's canon keeps, each stored as the loader's entry of its symbols under the widest kind that occurred; C10_writer_canonical (what the writer keeps has no two consecutive changes with the same value: C06 for FST sources), C10_writer_strings_reals (string and real signals: the writer keeps exactly canon of the callback sequence, stored verbatim), C10_expand_for_every_value (expand_entries is the identity on meaning for every value), C10_cursor_first (the time-index cursor of load_signals). Further: C10_expand_is_rewrite (an entry written under a narrower maximum, once widened, is byte for byte the entry written under the wider kind: order independence of 2/4/9-state values), "
              "C10_writer_uses_entry_layout, C10_writer_entry (entry round trip), C10_timescale (for every exponent -15..0 the reported factor x unit is the file's tick). The real SignalWriter (hook) is driven with every sequence of value kinds of length <= 4 at widths 1..24 and random histories "
              "(release and debug-assertion builds) against the Lean model and canon of the callback history; every corpus x.vcd / x.vcd.fst pair is loaded through both paths and compared variable by variable.",
         design_ref="DESIGN.md section 5 / C10",
